@@ -546,9 +546,17 @@ package larking
 // http.go: request parameters. Path-bound fields are authoritative (C07): the
 // params applied last win in params.set, so every path capture must come after
 // every query parameter in the list handed to the stream.
+// Assumed (the function ranges over a Go map and calls into protoreflect):
+// the result is nil or a freshly allocated slice.
+//@ func (*method).parseQueryParams trusted
+//@   returns (ps, err)
+//@   modifies E$param
+//@   ensures base(ps) == 0 || isfresh(ps)
+
 //@ func (*Mux).serveHTTP serves C07 partial ghost
 //@   requires m != nil && w != nil && r != nil
 //@   witness verifWitnessPathAuthoritative
 //@   ghost at "queryParams, err := method.parseQueryParams(r.URL.Query())" pp = params
 //@   assert at "hd, err := s.pickMethodHandler(method.name)" [path-params-last C07] len(params) == len(pp) + len(queryParams)
-//@        && (forall k :: 0 <= k && k < len(pp) ==> same(params[len(queryParams) + k], at(pp, off(pp) + k)))
+//@        && (forall x :: off(params) + len(queryParams) <= x && x < off(params) + len(params)
+//@              ==> same(at(params, x), at(pp, x - off(params) - len(queryParams) + off(pp))))
